@@ -66,12 +66,20 @@ def instances(tier):
                 tag = f"w{''.join(map(str, ws))}-chain{n}-{dk}"
                 out.append({"name": f"ILP-{tag}", "kind": "ILP", "opts": {"goal": "max_goodput", "enforce_deadlines": True, "release_taskgraphs": True}, "inst": inst})
                 out.append({"name": f"TSG-d1-{tag}", "kind": "TSG", "opts": {"enforce_deadlines": True, "time_discretization": 1, "release_taskgraphs": True}, "inst": inst})
+    # a chain whose parent is RUNNING and has already made progress: the child fits right after the parent's *remaining* time
+    for ws in ([[2], [2, 1]] if tier == "quick" else [[2], [2, 1], [1, 1], [3]]):
+        for dl in ((12,) if tier == "quick" else (11, 12, 14)):
+            tasks = {"C0": {"strategies": [[6, 1]], "deadline": 20, "state": "RUNNING", "worker": 0, "strategy": 0, "at": 0}, "C1": {"strategies": [[3, 1]], "deadline": dl}}
+            inst = {"now": 4, "workers": ws, "graphs": [{"name": "G", "tasks": ["C0", "C1"], "edges": [["C0", "C1"]]}], "tasks": tasks}
+            tag = f"w{''.join(map(str, ws))}-chain2-parent-running-with-progress-dl{dl}"
+            out.append({"name": f"ILP-{tag}", "kind": "ILP", "opts": {"goal": "max_goodput", "enforce_deadlines": True, "release_taskgraphs": True}, "inst": inst})
+            out.append({"name": f"TSG-d1-{tag}", "kind": "TSG", "opts": {"enforce_deadlines": True, "time_discretization": 1, "release_taskgraphs": True}, "inst": inst})
     return out
 
 
 # ------------------------------------------------------------------------------------------ ILP reference
 
-def ilp_reference(I, offered, exact, in_model=None):
+def ilp_reference(I, offered, exact, in_model=None, running_as_fresh=False):
     """Independent SMT semantics of 'a feasible plan' under the ILP's time conventions.
     Returns (optimizer-ready constraints, goodput term, per-task vars)."""
     now, P = I.now, I.params
@@ -97,18 +105,26 @@ def ilp_reference(I, offered, exact, in_model=None):
         rt_t = z3.Sum([z3.If(st == s_, rt, 0) for s_, (rt, dem) in enumerate(P[tn]["strategies"])])
         V[tn] += (rt_t,)
         cons.append(z3.Implies(placed, start + rt_t <= P[tn]["deadline"]))
-    # precedence (whole graph offered)
+    # what is left of a running task: its remaining time (running_as_fresh: the ILP's convention, the full runtime counted from now)
+    def left(tn):
+        t = I.tasks[tn]
+        si = mipinst._sidx(I, tn, t.current_placement.execution_strategy)
+        return P[tn]["strategies"][si][0] if running_as_fresh else t.remaining_time.time
+
+    # precedence (whole graph offered; a running parent ends at now + what is left of it)
     for tn in offered:
         for p in P[tn]["parents"]:
             if p in V:
                 cons.append(z3.Implies(V[tn][0], z3.And(V[p][0], V[tn][3] >= V[p][3] + V[p][4] + 1)))
-    # occupancy by running tasks: [now, now + runtime] inclusive (they started at now in this family)
+            elif I.tasks[p].state.name == "RUNNING":
+                cons.append(z3.Implies(V[tn][0], V[tn][3] >= now + left(p) + 1))
+    # occupancy by running tasks: [now, now + what is left] inclusive
     fixed = []
     for tn, t in I.tasks.items():
         if t.state.name == "RUNNING":
             wpos = [wk.id for (_, wk, _) in I.workers].index(t.current_placement.worker_id)
             si = mipinst._sidx(I, tn, t.current_placement.execution_strategy)
-            fixed.append((wpos, now, P[tn]["strategies"][si][0], P[tn]["strategies"][si][1]))
+            fixed.append((wpos, now, left(tn), P[tn]["strategies"][si][1]))
     names = list(V)
     resources = sorted({rn for (_, _, caps) in I.workers for rn in caps})
 
@@ -224,7 +240,14 @@ def check_instance(spec):
         note("C14:ilp-optimum-equals-reference")
         res["sample"] = {"model_size": R.zm.stats, "optimum_model": opt_model, "optimum_reference_rowwise": opt2, "optimum_reference_exact": opt1}
         if opt_model != opt2:
-            res["violations"].append({"label": "C14:ilp-optimum-equals-reference", "detail": {"model": opt_model, "reference": opt2, "exact_reference": opt1}})
+            # is the whole difference the ILP's convention of counting a running task with its full runtime from now?
+            c3, g3, _ = ilp_reference(I, offered, exact=False, in_model=in_model, running_as_fresh=True)
+            st3, opt3 = maximize(c3, g3)
+            res["queries"] += 1
+            if st3 == "sat" and opt3.as_long() == opt_model and opt_model < opt2 and any(t.state.name == "RUNNING" and t.remaining_time.time < P[tn]["strategies"][mipinst._sidx(I, tn, t.current_placement.execution_strategy)][0] for tn, t in I.tasks.items()):
+                res["violations"].append({"label": "C14:ilp-counts-a-running-task-with-its-full-runtime", "detail": {"model": opt_model, "reference": opt2, "reference_with_full_runtime": opt_model}})
+            else:
+                res["violations"].append({"label": "C14:ilp-optimum-equals-reference", "detail": {"model": opt_model, "reference": opt2, "exact_reference": opt1}})
         elif opt2 < opt1:
             res["violations"].append({"label": "C14:ilp-capacity-row-is-conservative", "detail": {"model": opt_model, "exact_reference": opt1}})
         # (2) the returned plan attains the model optimum
@@ -289,18 +312,36 @@ def check_instance(spec):
         res[str(r)] = res.get(str(r), 0) + 1
         return str(r), m
 
+    def earliest(u):
+        """earliest start the not-offered parents of u allow (a running parent ends at now + its remaining time; the
+        child may start one microsecond later, as in the ILP); None: a parent is neither done nor running -> not judged"""
+        e = now
+        for p in P[u]["parents"]:
+            if p in offered:
+                continue
+            stp = I.tasks[p].state.name
+            if stp == "COMPLETED":
+                continue
+            if stp != "RUNNING":
+                return None
+            e = max(e, now + I.tasks[p].remaining_time.time + 1)
+        return e
+
     note("C14:tetrisched-optimal-solutions-are-maximal")
     for u in offered:
         if P[u]["parents"] and any(p in offered for p in P[u]["parents"]):
             continue  # chains: dependants are covered through the model's own precedence rows (C11)
         rel = P[u]["release"]
+        est = earliest(u)
+        if est is None:
+            continue
         adds = []
         for w_, (pi, wobj, caps) in enumerate(I.workers):
             for si, (rt, dem) in enumerate(P[u]["strategies"]):
                 if not all(caps.get(rn, 0) >= q for rn, q in dem.items()):
                     continue
                 for t in slots:
-                    if t < now or (rel is not None and rel >= 0 and t < rel):
+                    if t < now or t < est or (rel is not None and rel >= 0 and t < rel):
                         continue
                     if spec["opts"].get("enforce_deadlines") and t + rt > P[u]["deadline"]:
                         continue
@@ -325,12 +366,15 @@ def check_instance(spec):
         if P[u]["parents"] and any(p in offered for p in P[u]["parents"]):
             continue
         rel = P[u]["release"]
+        est = earliest(u)
+        if est is None:
+            continue
         for w_, (pi, wobj, caps) in enumerate(I.workers):
             for si, (rt, dem) in enumerate(P[u]["strategies"]):
                 if not all(caps.get(rn, 0) >= q for rn, q in dem.items()):
                     continue
                 for t in slots:
-                    if t < now or (rel is not None and rel >= 0 and t < rel):
+                    if t < now or t < est or (rel is not None and rel >= 0 and t < rel):
                         continue
                     if spec["opts"].get("enforce_deadlines") and t + rt > P[u]["deadline"]:
                         continue
@@ -360,6 +404,8 @@ def check_instance(spec):
 def signature(spec, v):
     if v["label"] == "C14:ilp-capacity-row-is-conservative":
         return "ilp-capacity-row-charges-every-overlapping-task-even-if-they-do-not-overlap-each-other"
+    if v["label"] == "C14:ilp-counts-a-running-task-with-its-full-runtime":
+        return "ilp-counts-a-running-task-with-its-full-runtime-from-now"
     return f"{spec['kind']}:{v['label']}"
 
 
